@@ -155,6 +155,20 @@ def _run(prop, tier, prof, replay_path, t0, sd, work):
                 log(f"[{prop}] blob model invariant {bver['violated']} violated; replaying the "
                     f"counterexample ({len(bver['cex_ops'])} steps) on the real tree")
                 raw.append(bver["cex_ops"])
+        # 1c. design level, FIFO strategy (LsmFifo!FifoChoose, the transcription TraceLsm holds the
+        # real strategy's choices against): C19 for every input within the bounds
+        if tp.get("fifo_model"):
+            fm = tp["fifo_model"]
+            fver = vlib.tlc_verify(prop, fm["constants"], ["ChoiceIsSound", "ChoiceSuffices"], work,
+                                   workers=fm.get("workers", 8), timeout=fm.get("timeout", 900),
+                                   module="MC_fifo.tla", view=None, constraint=None, spec="Spec")
+            log(f"[{prop}] FIFO strategy model: {fver.get('distinct')} inputs, ok={fver.get('ok')} "
+                f"({fver['wall_s']}s)")
+            if not fver.get("ok"):
+                log(fver.get("counterexample", ""))
+                raise vlib.ToolError("the transcribed FIFO strategy violates C19 in the model "
+                                     f"({fver.get('violated')}); no automatic replay for this model")
+            verify["fifo_model"] = {k: fver.get(k) for k in ("distinct", "generated", "ok", "wall_s", "constants")}
         # 2. generate behaviours
         driven = []
         for g in tp["gen"]:
@@ -270,6 +284,7 @@ def _run(prop, tier, prof, replay_path, t0, sd, work):
         "model_constants": (verify or {}).get("constants"),
         "model_invariants": list(prof["invariants"]),
         "blob_model": (verify or {}).get("blob_model"),
+        "fifo_model": (verify or {}).get("fifo_model"),
         "traces_validated_against_impl": len(behaviours),
         "trace_steps_validated": lines,
         "evaluations": steps,
